@@ -101,6 +101,17 @@ def r2_error_writes(ctx):
     ctx.check(ck, R, EXEC + "::step|awaiters-filter", "awaiters are selected by awaiting.contains_key(&current_pid)", "the awaiters of a finished process are no longer selected by their awaiting map")
 
 
+def _msg_text(t):
+    """the printable part of a string / format-pieces literal as the driver prints it"""
+    import re
+    t = t.strip()
+    if t.startswith("b\""):
+        t = t[2:-1]
+        t = re.sub(r"\\x[0-9a-fA-F]{2}", " ", t)
+    t = t.strip("\"")
+    return " ".join(t.split())
+
+
 def r3_fatal_errors(ctx):
     R = "R-C15-3"
     ctx.rule(R, "fatal-error census: every EnvironmentError constructed on the runtime paths (each can end the worker loop or the environment step) "
@@ -144,30 +155,51 @@ def r3_fatal_errors(ctx):
                     if c.startswith(EXEC + "::") and c in F.fns and F.fns[c].get("mir") and not c.endswith("::step") and "error::Error" in (F.body(c).local_ty(0) or ""):
                         croots.add(c)
         creach = {k for k in F.reach(sorted(croots)) if k.startswith("quiver_core::") and F.fns[k].get("mir") and not F.fns[k].get("derived")}
+        MSG_TC = ("ToString::to_string", "fmt::format", "Arguments::new_const", "Arguments::new_v1", "Arguments::new", "ToOwned::to_owned", "From::from", "String::from",
+                  "must_use", "format", "Into::into")
         for k in sorted(creach):
             b = F.body(k)
+            bfl = Flow(b, through_named=True)
             for bi, si, s in agg_sites(b, "error::Error"):
-                found_core[(k.split("::{closure")[0], s["rv"]["variant"])].append(b.loc(bi, si))
+                # a fatal error is identified by WHAT it says (variant + message literal), not by where or how often it is constructed: duplicating a
+                # reviewed error into both arms of a match, or moving it into a helper, is not a new way for the worker to die
+                msgs = set()
+                for o in s["rv"]["ops"]:
+                    pl = op_place(o)
+                    if pl:
+                        for x in bfl.sources(pl["l"], through_calls=MSG_TC):
+                            if x[0] == "const" and x[1].get("text") and ("str" in (x[1].get("ty") or "") or "[u8" in (x[1].get("ty") or "")):
+                                msgs.add(_msg_text(x[1]["text"]))
+                    elif o.get("c") == "const" and o.get("text"):
+                        msgs.add(_msg_text(o["text"]))
+                key = " / ".join(sorted(msgs)) if msgs else "<no literal> in " + k.split("::{closure")[0].split("::")[-1]
+                found_core[(s["rv"]["variant"], key)].append(b.loc(bi, si))
     if os.environ.get("QV_CENSUS_GEN") == "1":
         tbl = {"fatal": {}, "fatal_core": {}}
         for (k, v), locs in sorted(found.items()):
             tbl["fatal"]["%s|%s" % (k, v)] = {"ceiling": len(locs), "why": WHYV.get(v, "reviewed")}
-        for (k, v), locs in sorted(found_core.items()):
-            tbl["fatal_core"]["%s|%s" % (k, v)] = {"ceiling": len(locs), "why": "reviewed: an id / heap index that does not exist in this executor — ids come from the "
-                                                   "environment's own routing tables and heap indices from this executor's extraction (R-C06-6); not reachable from a program"}
+        for (v, msg), locs in sorted(found_core.items()):
+            tbl["fatal_core"]["%s|%s" % (v, msg)] = {"why": "reviewed: an id / heap index that does not exist in this executor — ids come from the environment's own "
+                                                     "routing tables and heap indices from this executor's extraction (R-C06-6); not reachable from a program, or "
+                                                     "(effect failure text) stored as the requesting process's own result"}
         json.dump(tbl, open(path, "w"), indent=1)
         return
-    ctx.floor(R, "executor entry points whose error ends the worker", len(croots), 4)
-    census.reconcile(ctx, R, {k: [(loc, None) for loc in locs] for k, locs in found_core.items()}, table.get("fatal_core", {}),
-                     "Error::%s is constructed in an executor entry point the worker calls outside step() and propagates with `?`: if a program history can "
-                     "reach it (e.g. a completion arriving for a process that has already finished), the worker loop ends and every other process on it hangs",
-                     "%d constructions of Error::%s on a worker-fatal executor path, reviewed ceiling %d (%s)")
     n = sum(len(v) for v in found.values())
     census.reconcile(ctx, R, {k: [(loc, None) for loc in locs] for k, locs in found.items()}, table["fatal"],
                      "EnvironmentError::%s is constructed on a runtime path and is not in the reviewed table: if a program can reach it, the worker loop ends "
                      "and every other process hangs",
                      "%d constructions of EnvironmentError::%s, reviewed ceiling %d (%s)")
     ctx.floor(R, "EnvironmentError constructions on runtime paths", n, 30)
+    ctx.floor(R, "executor entry points whose error ends the worker", len(croots), 4)
+    reviewed = table.get("fatal_core", {})
+    for (v, msg), locs in sorted(found_core.items()):
+        tk = "%s|%s" % (v, msg)
+        if tk in reviewed:
+            ctx.exception(R, "worker-fatal|" + tk, "%d construction(s): %s" % (len(locs), reviewed[tk]["why"][:160]), locs[0])
+        else:
+            ctx.violated(R, "worker-fatal|" + tk, "Error::%s(\"%s\") is constructed in an executor entry point the worker calls outside step() and propagates with `?`, and is "
+                         "not a reviewed fatal error: if a program history can reach it (e.g. a completion arriving for a process that has already "
+                         "finished), the worker loop ends and every other process on it hangs" % (v, msg[:80]), locs[0])
 
 
 def r5_ownership_and_effect_errors_are_values(ctx):
